@@ -8,7 +8,6 @@ import (
 	"crypto/tls"
 	"crypto/x509"
 	"fmt"
-	"io"
 	"net"
 	"strings"
 	"sync"
@@ -529,6 +528,8 @@ type Proxy struct {
 	// DelayMs: a slow link - an accepted connection is held this long before it is relayed to the target
 	DelayMs int
 	closed bool
+	frozen bool
+	thaw   *sync.Cond
 	Accept []time.Duration // times of accepted TCP connections
 }
 
@@ -538,6 +539,7 @@ func newProxy(f *Fabric, x, y int) (*Proxy, error) {
 		return nil, err
 	}
 	p := &Proxy{f: f, X: x, Y: y, l: l, Port: l.Addr().(*net.TCPAddr).Port}
+	p.thaw = sync.NewCond(&p.mu)
 	go p.serve()
 	return p, nil
 }
@@ -595,17 +597,50 @@ func (p *Proxy) relay(c net.Conn) {
 	p.relays = append(p.relays, r)
 	p.mu.Unlock()
 	go func() {
-		_, _ = io.Copy(d, c)
+		p.pipe(d, c)
 		if !r.half.Load() {
 			r.close()
 		}
 	}()
 	go func() {
-		_, _ = io.Copy(c, d)
+		p.pipe(c, d)
 		if !r.half.Load() {
 			r.close()
 		}
 	}()
+}
+
+// pipe copies src to dst; while the proxy is frozen (a black hole: the link is up, nothing gets
+// through, nobody is told) the bytes are held back.
+func (p *Proxy) pipe(dst, src net.Conn) {
+	buf := make([]byte, 32*1024)
+	for {
+		n, err := src.Read(buf)
+		if n > 0 {
+			p.mu.Lock()
+			for p.frozen && !p.closed {
+				p.thaw.Wait()
+			}
+			p.mu.Unlock()
+			if _, werr := dst.Write(buf[:n]); werr != nil {
+				return
+			}
+		}
+		if err != nil {
+			return
+		}
+	}
+}
+
+// SetFrozen turns the link into a black hole (or back): connections stay open, no byte gets through.
+func (p *Proxy) SetFrozen(on bool) {
+	p.mu.Lock()
+	p.frozen = on
+	if p.thaw == nil {
+		p.thaw = sync.NewCond(&p.mu)
+	}
+	p.thaw.Broadcast()
+	p.mu.Unlock()
 }
 
 // SetDelay makes the link slow: connections accepted from now on are held ms before they are relayed.
@@ -682,6 +717,8 @@ func (p *Proxy) Accepts() []time.Duration {
 func (p *Proxy) Close() {
 	p.mu.Lock()
 	p.closed = true
+	p.frozen = false
+	p.thaw.Broadcast()
 	rs := append([]*relay(nil), p.relays...)
 	p.mu.Unlock()
 	p.l.Close()
